@@ -33,6 +33,15 @@
 // This project:
 #include <bxdecay0/utils.h>
 
+#ifdef BXDECAY0_VERIF
+// Verification hook (off by default): schedule points between the save/disable, integrate and
+// restore steps of the process-wide GSL error handler, so that a checker can force interleavings.
+extern "C" void bxdecay0_verif_yield(int point_);
+#define BXDECAY0_VERIF_YIELD(Point) bxdecay0_verif_yield(Point)
+#else
+#define BXDECAY0_VERIF_YIELD(Point)
+#endif
+
 namespace bxdecay0 {
 
   double decay0_gauss(func_type f_, double min_, double max_, double epsrel_, void * params_)
@@ -52,8 +61,10 @@ namespace bxdecay0 {
     int count                    = 0;
     int status                   = 0;
     gsl_error_handler_t * gsl_eh = gsl_set_error_handler_off();
+    BXDECAY0_VERIF_YIELD(1);
     while (true) {
       status = gsl_integration_qng(&F, min_, max_, epsabs, epsrel, &result, &abserr, &neval);
+      BXDECAY0_VERIF_YIELD(2);
       /// TRACE
       // if (trace) {
       //   static std::unique_ptr<std::ofstream> _fdebug;
@@ -86,6 +97,7 @@ namespace bxdecay0 {
       /// TRACE if (trace) std::cerr << "[trace] bxdecay0::decay0_gauss: GSL_ETOL = " << "retrying..." << std::endl;
     }
     gsl_set_error_handler(gsl_eh);
+    BXDECAY0_VERIF_YIELD(3);
     if (status != 0) {
       std::ostringstream message;
       message << "bxdecay0::decay0_gauss: "
